@@ -9,6 +9,7 @@ from ..engine.mutate import Mutant, Variant, in_function, replace_once
 from ..engine.runner import Rule
 from ..engine.source import AnalysisError
 from ..engine.sqlfront import all_where_clauses, split_conjuncts
+from . import shared
 from .common import callee_name, calls_in
 
 EXPLANATION = (
@@ -66,6 +67,7 @@ def rule_read_set(ctx):
     ctx.check(f"WHEN step.need = {Need.DEFAULT.value} AND EXISTS" in flat, "scheduler.UPDATE_CHECK_AFTER", "directory targets elevate DEFAULT-need producers only", "directory targets sweep in OPTIONAL steps", "need = DEFAULT guard")
     w = ctx.cat.writes(sql)
     ctx.check({("UPDATE", "step", "_implied_need", None), ("UPDATE", "step", "_tail_time", None)} <= w, "scheduler.UPDATE_CHECK_AFTER", "writes _implied_need and _tail_time", f"{sorted(w, key=str)[:4]}", "both")
+    shared.check_edge_delete_flags_suppliers(ctx, "an OPTIONAL producer keeps the need it inherited from a consumer whose (amended) input edge was dropped: it is still built, and never reverted, although nothing requires its output any more")
     rt = ctx.prog.func("workflow.Workflow.reconcile_targets")
     src = _norm(ast.unparse(rt.node))
     # every step whose cached need is TARGET is re-examined when the target set may have changed: the statement that
@@ -156,6 +158,7 @@ RULES = [
 ]
 
 MUTANTS = [
+    Mutant("edge-delete-skips-suppliers", "step.py", replace_once("    UPDATE step SET _check_after = 1\n    WHERE node IN (SELECT source FROM dependency WHERE sink = OLD.source);\n", ""), ("R-C11-2",)),
     Mutant("detached-subtree-one-level", "step.py", replace_once("        JOIN subtree ON node.creator = subtree.node\n        WHERE node.kind = 'step'\n", "        JOIN subtree ON node.creator = subtree.node\n        WHERE node.kind = 'step' AND NOT node.detached\n"), ("R-C11-2",)),
     Mutant("stale-target-default-only", "workflow.py", in_function("Workflow.reconcile_targets", replace_once('f"UPDATE step SET _check_after = 1 WHERE _implied_need = {Need.TARGET.value}"', 'f"UPDATE step SET _check_after = 1 WHERE _implied_need = {Need.TARGET.value} AND need = {Need.DEFAULT.value}"')), ("R-C11-2",)),
     Mutant("constant-threshold", "workflow.py", in_function("Workflow.need_threshold", replace_once("return Need.DEFAULT if self.targets or self.target_dirs else Need.OPTIONAL", "return Need.OPTIONAL")), ("R-C11-1",)),
